@@ -107,11 +107,21 @@ def render_names(root, rng, nfiles=6):
         pool = list(NAMES)
         rng.shuffle(pool)
         picked = pool[: rng.randint(3, 6)]
+        # related pairs on purpose: a type and the type named like its second value / its completion channel
+        if rng.chance(0.7):
+            pair = rng.choice([("Foo", "FooCh"), ("Foo", "Foo0"), ("FooCh", "FooCh0"), ("Err", "Err0"), ("Foo", "FooCh")])
+            picked = [x for x in picked if x not in pair]
+            a_pos = rng.randint(0, len(picked))
+            picked.insert(a_pos, pair[0])
+            picked.append(pair[1])          # the related name late in the chain (often an unsupplied parameter)
+            if rng.chance(0.5):
+                picked.reverse()
         src = ["package nm", "", 'import "github.com/mazrean/kessoku"', ""]
         tag = "N%d" % f
         tys = []
         for i, nm in enumerate(picked):
-            t = "%s%s" % (nm, tag)           # e.g. Foo0N3: lower-camel base foo0N3
+            t = "%s%s" % (tag, nm)           # e.g. N3Foo0: lower-camel base n3Foo0 = what a second value of N3Foo is called;
+                                             # N3FooCh: base n3FooCh = the completion channel of a N3Foo value
             src.append("type %s struct{ v int }" % t)
             tys.append(t)
         # package-level identifiers equal to the bases the generator derives for these types
@@ -120,11 +130,19 @@ def render_names(root, rng, nfiles=6):
             src.append("var %s = 1" % lc(t))
             src.append("var _ = %s" % lc(t))
         # providers: chain tys[0] <- tys[1] <- ...; two values of the same type via a multi-value provider
-        for i, t in enumerate(tys):
-            dep = ("x *%s" % tys[i + 1]) if i + 1 < len(tys) else ""
-            src.append("func New%s(%s) (*%s, error) { return nil, nil }" % (t, dep, t))
-        provs = ", ".join(("kessoku.Async(kessoku.Provide(New%s))" if rng.chance(0.5) else "kessoku.Provide(New%s)") % t for t in tys)
-        declared = set(tys) | set(lc(t) for t in tys[:2]) | set("New" + t for t in tys)
+        # sometimes the last types of the chain have no provider: they become injector parameters (named from the pool too)
+        nsup = len(tys) - (rng.randint(1, 2) if (len(tys) > 3 and rng.chance(0.5)) else 0)
+        # fan-in: the requested type needs up to three independent values (so that Async providers get goroutines of
+        # their own and completion channels are needed), each of which continues as a chain
+        w = min(3, len(tys) - 1)
+        for i, t in enumerate(tys[:nsup]):
+            if i == 0:
+                deps = ["x%d *%s" % (j, tys[j]) for j in range(1, 1 + w)]
+            else:
+                deps = ["x *%s" % tys[i + w]] if i + w < len(tys) else []
+            src.append("func New%s(%s) (*%s, error) { return nil, nil }" % (t, ", ".join(deps), t))
+        provs = ", ".join(("kessoku.Async(kessoku.Provide(New%s))" if rng.chance(0.6) else "kessoku.Provide(New%s)") % t for t in tys[:nsup])
+        declared = set(tys) | set(lc(t) for t in tys[:2]) | set("New" + t for t in tys[:nsup])
         # injector names equal to the *bases* the generator derives for variables (err, the lower-camel type
         # names, suffixed forms) but never equal to an identifier the user declared
         cands = ["Init" + tag, lc(tys[0]), lc(tys[-1]) + "0", "err", "eg", "ctx", "zero", "ch", lc(tys[0]) + "Ch"]
